@@ -249,16 +249,23 @@ Eof ==
     /\ phase = "idle" /\ ~c.err /\ ~c.done /\ mi > Len(script.msgs)
     /\ Raise("early")
     /\ UNCHANGED <<script, mi, ri, phase>>
-(* leaving the context: whatever transaction is still open is rolled back *)
-Exit ==
+(* leaving the context (the `with Inbound` block): whatever transaction is still open is rolled back, HOWEVER the
+   caller leaves -- "propagate": an exception (raised by the transfer, or the caller's own end-of-stream error)
+   travels out of the block; "caught": the caller handled the transfer's exception inside the block and then leaves
+   normally; "clean": the caller leaves normally, either after the transfer completed or because it has no more
+   messages although the transfer is not done; "library": dns.query / dns.asyncquery inbound_xfr did the leaving.
+   An unfinished transfer is never applied. *)
+Leaves == {"propagate", "caught", "clean", "library"}
+Exit(how) ==
     /\ phase = "idle" /\ (c.err \/ c.done)
+    /\ how \in {"propagate", "caught"} => c.err
     /\ c' = [c EXCEPT !.txnOpen = FALSE]
     /\ phase' = "exited"
     /\ UNCHANGED <<script, mi, ri>>
 
 RecordStep == FirstSoa \/ AfterDone \/ FinalSoa \/ DeleteStartSoa \/ AddStartSoa \/ UnexpectedSoa
               \/ FallbackToAxfr \/ Apply
-Next == BeginMessage \/ RecordStep \/ EndOfMessage \/ Eof \/ Exit
+Next == BeginMessage \/ RecordStep \/ EndOfMessage \/ Eof \/ (\E how \in Leaves : Exit(how))
 
 ---------------------------------------------------------------------------
 (* ENVIRONMENT: building the scripts *)
